@@ -212,8 +212,34 @@ def justify(facts, roles, arity, src, table):
     return None
 
 
+def guarded_sub(b, bi, rv):
+    """a - b under a dominating test that a >= b (or a > b) of the same operands."""
+    from .core import edge_dominates, bool_edge
+    a, c = strip_refs(b.trace(rv["a"])), strip_refs(b.trace(rv["b"]))
+    for sb in b.reachable():
+        tt = b.blocks[sb]["term"]
+        if tt["k"] != "SwitchInt" or tt.get("dty") != "bool":
+            continue
+        e = strip_refs(b.trace(tt["discr"]))
+        if e[0] != "binop" or e[1] not in ("Gt", "Ge", "Lt", "Le"):
+            continue
+        x, y = strip_refs(e[2]), strip_refs(e[3])
+        for truth in (True, False):
+            op = e[1] if truth else {"Gt": "Le", "Ge": "Lt", "Lt": "Ge", "Le": "Gt"}[e[1]]
+            implies = (op in ("Gt", "Ge") and (x, y) == (a, c)) or (op in ("Lt", "Le") and (y, x) == (a, c))
+            if implies and edge_dominates(b, sb, bool_edge(b, sb, truth), bi):
+                return True
+    return False
+
+
 def j_assert(facts, b, bi, t):
     msg = t["msg"]
+    if msg == "Overflow":
+        for s in b.blocks[bi]["stmts"]:
+            if s["k"] == "Assign" and s["rv"]["k"] == "BinaryOp" and s["rv"]["op"].startswith("Sub") and re.match(r"^u(8|16|32|64|128|size)$", s["rv"].get("opty") or ""):
+                if guarded_sub(b, bi, s["rv"]):
+                    return "J1 guard: unsigned a - b under a dominating test that a >= b"
+        return None
     if msg in ("DivisionByZero", "RemainderByZero"):
         # cond = Eq(divisor, 0) expected false; find divisor in the BinaryOp that follows
         tgt = b.blocks[t["target"]]
